@@ -3,6 +3,7 @@ from harness import enc, gen
 from harness.annutil import (enc_names, enc_triples, enc_uri, mk_ann, nm, rand_records, triples, LABELS, TRACKS)
 from harness.timebase import TB
 from harness.tlutil import mk_sup
+from harness import heaputil
 
 PROP = "C08"
 CHECK_MODULE = "Check.C08"
@@ -22,7 +23,9 @@ RULE = ("for every deriving operation of Annotation and Timeline (copy, crop x3,
         "label_support, get_overlap, to_annotation, Timeline copy/crop/extrude/support/gaps/segmentation/union) in each "
         "cache state of the source (never read / fully read / partially dirty): derive, snapshot both sides, apply 1-6 "
         "random mutations (insert, overwrite, delete track/segment, in-place rename, uri change, update; add, remove, "
-        "update for timelines) to ONE side, and snapshot the other side again; plus purity of every query "
+        "update for timelines) to ONE side, and snapshot the other side again; at derivation time and after the mutations "
+        "the identities of all reachable mutable containers (dict, list, set, SortedDict, SortedList, Timeline, Annotation) "
+        "of the two sides and of the arguments are compared (separation, the premise of the frame theorem); plus purity of every query "
         "(co_iter, *, serialisation, ==, chart, argmax, discretize, covers, ...) on receiver and arguments; "
         "regimes K0/K1; non-trivial = the derived object is non-empty and at least two mutations were applied")
 
@@ -191,14 +194,21 @@ def run(case):
             raw_before = _raw_snap(tb, src)
             other_before = _snap(tb, other)
             d = _derive(tb, op, a, t, other, sup, labels)
+            # separation at derivation time: no mutable container is reachable from both the derived
+            # object and the source / the arguments (premise (i) of the frame theorem of C08)
+            sh = heaputil.shared([a, src, other, sup], [d])
             assert _raw_snap(tb, src) == raw_before, "derivation changed its source"
             assert _snap(tb, other) == other_before, "derivation changed its argument"
             sb_src, sb_d = _snap(tb, src), _snap(tb, d)
-            if case["side"] == "derived":
-                _mutate(tb, d, case["muts"], other)
-                return {"ub": sb_src, "ua": _snap(tb, src), "n_derived": len(sb_d["timeline"])}
-            _mutate(tb, src, case["muts"], other)
-            return {"ub": sb_d, "ua": _snap(tb, d), "n_derived": len(sb_d["timeline"])}
+            x, y = (d, src) if case["side"] == "derived" else (src, d)
+            sb_y = sb_src if y is src else sb_d
+            ids_y = sorted(heaputil.containers(y))
+            _mutate(tb, x, case["muts"], other)
+            # footprint discipline (premise (ii)): the mutators acquired nothing owned by the other side or
+            # by their argument, and the other side still owns the same containers
+            sh += heaputil.shared([x], [y, other])
+            yids_same = sorted(heaputil.containers(y)) == ids_y
+            return {"ub": sb_y, "ua": _snap(tb, y), "n_derived": len(sb_d["timeline"]), "shared": sh, "yids": yids_same}
         # purity of queries
         _prime(a, case["cache"], labels)
         t = a.get_timeline()
@@ -240,7 +250,8 @@ def _enc_snap(s):
 def encode(case, o):
     e = enc
     if case["k"] == "indep":
-        return f"KIndep {_enc_snap(o['ub'])} {_enc_snap(o['ua'])} {_enc_snap(o['ub'])} {_enc_snap(o['ub'])}"
+        return (f"KIndep {_enc_snap(o['ub'])} {_enc_snap(o['ua'])} {_enc_snap(o['ub'])} {_enc_snap(o['ub'])} "
+                f"{e.z(len(o.get('shared', [])))} {e.b(o.get('yids', True))}")
     b, a = o["before"], o["after"]
     return f"KPure {_enc_snap(b[0])} {_enc_snap(a[0])} {e.lst([_enc_snap(x) for x in b[1:]])} {e.lst([_enc_snap(x) for x in a[1:]])}"
 
